@@ -5,4 +5,4 @@ cd /verif || exit 2
 also() { case "$1" in C03-m5|C03-m6|C04-m3|C04-m4|C04-m5|C04-m6|C05-m6|C12-m5) echo C02;; *) echo "";; esac; }
 one() { p="$1"; k="$2"; tools/seedrun.sh "$p-m$k" work/cand/$p/m$k.diff $p $(also "$p-m$k") > work/seed_results/$p-m$k.txt 2>&1; grep "^== " work/seed_results/$p-m$k.txt | tr '\n' ' '; echo; }
 export -f one also
-for p in C01 C02 C03 C04 C05 C06 C07 C08 C09 C10 C11 C12 C13 C14 C15 C16 C17 C18 C19 C20; do for k in 1 2 3 4 5 6 7 8 9; do [ -f work/cand/$p/m$k.diff ] && echo "$p $k"; done; done | xargs -P 4 -n 2 bash -c 'one "$0" "$1"'
+for p in C01 C02 C03 C04 C05 C06 C07 C08 C09 C10 C11 C12 C13 C14 C15 C16 C17 C18 C19 C20; do for k in 1 2 3 4 5 6 7 8 9 10 11 12; do [ -f work/cand/$p/m$k.diff ] && echo "$p $k"; done; done | xargs -P 4 -n 2 bash -c 'one "$0" "$1"'
